@@ -194,6 +194,9 @@ func c14Run(c *core.Ctx) {
 			}
 		}
 	}
+	// the names as the command-line tool prints them (-r): each file's names under that file's path, whatever the
+	// order in which the files reach the printer goroutine (nothing of one file's namespace may survive into the next)
+	cliExplore(c, "C14", [][]string{{"-p", "-r"}}, []string{"7.4", "5.6"}, cliConfigs(c.Thorough(), false))
 }
 
 // clash: two imports defining the same alias of the same kind cannot stand together in PHP.
@@ -227,6 +230,9 @@ func init() {
 		Assume: []string{"programs the family's parser rejects (PHP 7 syntax under 5.6) are skipped, counted"},
 		Run:    c14Run,
 		Replay: func(c *core.Ctx, raw json.RawMessage) {
+			if cliReplay(c, raw) {
+				return
+			}
 			var cs c14Case
 			if json.Unmarshal(raw, &cs) == nil && cs.Mode == "src" {
 				c14One(c, cs)
